@@ -310,6 +310,38 @@ def known_findings():
         return {"open": [], "fixed": []}
 
 
+def source_stamp():
+    """identifies the state of /repo's working tree (HEAD + uncommitted changes to tracked files)"""
+    h = hashlib.sha256()
+    h.update(sh("git -C %s rev-parse HEAD" % REPO)[1].encode())
+    h.update(sh("git -C %s diff HEAD -- C common cnippet data-structures" % REPO)[1].encode())
+    return h.hexdigest()
+
+
+def regenerate_if_stale(chk=None):
+    """coq/gen/*.v are regenerated from /repo by the translators; a check runs the translators of its own property itself, but its proofs may
+    depend on files another property's translator writes (C03 on the C06 tables): whenever the source state differs from the one the files
+    were generated from, ALL translators run"""
+    stamp_file = os.path.join(CACHE, "gen.stamp")
+    try:
+        stamp = source_stamp()
+        if os.path.exists(stamp_file) and open(stamp_file).read() == stamp:
+            return
+        sys.path.insert(0, os.path.join(ROOT, "checks"))
+        import registry
+        for name, fn in registry.translators():
+            try:
+                fn()
+            except Exception as e:
+                if chk is not None:
+                    chk.notes.append("translator %s failed while refreshing coq/gen: %s" % (name, e))
+        os.makedirs(CACHE, exist_ok=True)
+        open(stamp_file, "w").write(stamp)
+    except Exception as e:
+        if chk is not None:
+            chk.notes.append("regenerate_if_stale: %r" % (e,))
+
+
 class Check:
     """context of one run of one property's check"""
 
@@ -319,6 +351,7 @@ class Check:
         self.rng = random.Random(self.seed * 1000003 + sum(map(ord, prop)))
         self.t0 = time.time()
         self.violations = []        # (key, replay path, found-input?)
+        self.proof_failures = []    # (Properties file, coqc output) of files that did not check
         self.known_printed = []
         self.coverage = {"obligations": 0, "discharged": 0, "checker_cmd": "", "trusted_base": [],
                          "evaluations": 0, "distinct_nontrivial": 0, "rule": "", "samples": []}
@@ -331,6 +364,7 @@ class Check:
     def prove(self, prop_files, extra_targets=()):
         """build the .vo files the property needs, re-check the Properties files, record obligations.
         returns dict file -> (ok, output)"""
+        regenerate_if_stale(self)
         bad = lint_coq()
         if bad:
             self.report("lint", {"unchecked": "coq lint (forbidden vernacular)", "lines": bad}, found=False)
@@ -348,6 +382,8 @@ class Check:
                 # find out whether this file in particular is broken
                 fok, out = (False, log) if not os.path.exists(vo) else coq_check_file(f)
             res[f] = (fok, out)
+            if not fok:
+                self.proof_failures.append((f, out))
             if fok:
                 discharged += len(names)
                 self.coverage.setdefault("print_assumptions", {})[f] = parse_assumptions(out)
@@ -391,6 +427,10 @@ class Check:
 
     # -- evidence -------------------------------------------------------------
     def finish(self):
+        # a Properties file that does not check is a violation of its own (no failing input): known findings must not hide it
+        if getattr(self, "proof_failures", None) and not self.violations:
+            for f, out in self.proof_failures:
+                self.report("proof-" + f, {"unchecked": f + " (theorems: %s)" % ", ".join(theorem_names(f)), "coq_output": (out or "")[-3000:]}, found=False)
         cov = self.coverage
         cov["known_findings_printed"] = self.known_printed
         ev = {"property_id": self.prop, "tier": self.tier, "seed": self.seed, "level": self.level,
